@@ -14,7 +14,7 @@ class RunResult(object):
         self.exc = None
         self.exc_type = None
         self.sig = None            # final simulated signature
-        self.first_pass_sig = None
+        self.second_pass_sig = None
         self.statements = []       # executed effect statements (sql, params)
         self.sql = None            # generated sql list
         self.mutations = None
@@ -52,10 +52,12 @@ def d1(sig, steps, db='default', real=None, execute=True):
             mutator = AppMutator(app_label=label, project_sig=sig,
                                  database_state=state, database=db)
             mutator.run_mutations(muts)
-            res.first_pass_sig = sig
             sql = mutator.to_sql()
             res.sql = (res.sql or []) + list(sql)
-            sig = mutator.project_sig
+            # `sig` (mutated in place by the first pass) is what the Evolver
+            # keeps as the resulting signature; the second pass replays the
+            # recorded operations on a pristine copy to generate the SQL.
+            res.second_pass_sig = mutator.project_sig
             if execute:
                 res.stage = 'execute'
                 with tracer.active():
